@@ -1093,6 +1093,10 @@ def _const_val(k):
     return None
 
 
+# 'path::Enum::Variant' -> discriminant, for every enum of the loaded crates (filled by facts.Crate)
+ENUM_DISCR = {}
+
+
 def reachable_cp(fn, starts, cut_edges=(), cut_blocks=(), init=None, max_states=30000):
     """Like reachable(), but path-sensitive on locals that hold constants and are
     later switched on (the `let flag = match … { A => true, … }; if flag {…}` idiom):
@@ -1142,18 +1146,50 @@ def reachable_cp(fn, starts, cut_edges=(), cut_blocks=(), init=None, max_states=
                 continue
             l = d[0]
             rv = s[1]
-            # enum variants of Result / Option / ControlFlow values (key ('V', local))
-            vk = ('V', l)
+            # enum variants of Result / Option / ControlFlow values (key ('V', local)), of workspace enums (ENUM_DISCR), and
+            # the payload of a single-payload wrapper (key ('P', local)): `Ok(false)`, `Ok(None)`, `Ok(Tally::AllYes(..))`
+            vk, pk = ('V', l), ('P', l)
             if rv[0] == 'agg' and re.search(r'(Result::(Ok|Err)|Option::(Some|None)|ControlFlow::(Continue|Break))$', rv[1]):
                 env[vk] = rv[1].rsplit('::', 1)[1]
-            elif rv[0] == 'use' and rv[1][0] in ('c', 'm') and not rv[1][1][1] and ('V', rv[1][1][0]) in env:
-                env[vk] = env[('V', rv[1][1][0])]
+                env.pop(pk, None)
+                if len(rv[2]) == 1:
+                    o = rv[2][0]
+                    if o[0] == 'k':
+                        cv = _const_val(o[1])
+                        if cv is not None:
+                            env[pk] = int(cv)
+                    elif not o[1][1] and ('V', o[1][0]) in env:
+                        env[pk] = env[('V', o[1][0])]
+            elif rv[0] == 'agg' and rv[1] in ENUM_DISCR:
+                env[vk] = rv[1]
+                env.pop(pk, None)
+            elif rv[0] == 'use' and rv[1][0] in ('c', 'm') and not rv[1][1][1] and (('V', rv[1][1][0]) in env or ('P', rv[1][1][0]) in env):
+                src = rv[1][1][0]
+                if ('V', src) in env:
+                    env[vk] = env[('V', src)]
+                else:
+                    env.pop(vk, None)
+                if ('P', src) in env:
+                    env[pk] = env[('P', src)]
+                else:
+                    env.pop(pk, None)
+            elif rv[0] == 'use' and rv[1][0] in ('c', 'm') and len(rv[1][1][1]) == 2 and isinstance(rv[1][1][1][0], str) and \
+                    rv[1][1][1][0] in ('as Continue', 'as Ok', 'as Some') and ('P', rv[1][1][0]) in env:
+                pv = env[('P', rv[1][1][0])]
+                env.pop(vk, None)
+                env.pop(pk, None)
+                if isinstance(pv, int):
+                    env[l] = pv
+                    continue
+                env[vk] = pv
             elif rv[0] == 'disc' and not rv[1][1] and ('V', rv[1][0]) in env:
-                env[l] = {'Ok': 0, 'Err': 1, 'None': 0, 'Some': 1, 'Continue': 0, 'Break': 1}[env[('V', rv[1][0])]]
+                vname = env[('V', rv[1][0])]
+                env[l] = ENUM_DISCR[vname] if vname in ENUM_DISCR else {'Ok': 0, 'Err': 1, 'None': 0, 'Some': 1, 'Continue': 0, 'Break': 1}[vname]
                 env.pop(vk, None)
                 continue
             else:
                 env.pop(vk, None)
+                env.pop(pk, None)
             if l in tup_src:
                 for key in [k for k in env if isinstance(k, tuple) and k[0] == l]:
                     env.pop(key, None)
@@ -1200,6 +1236,10 @@ def reachable_cp(fn, starts, cut_edges=(), cut_blocks=(), init=None, max_states=
                 vk = ('V', t[4][0])
                 a0 = t[3][0] if t[3] else None
                 av = env.get(('V', a0[1][0])) if a0 is not None and a0[0] in ('c', 'm') and not a0[1][1] else None
+                ap = env.get(('P', a0[1][0])) if a0 is not None and a0[0] in ('c', 'm') and not a0[1][1] else None
+                env.pop(('P', t[4][0]), None)
+                if ap is not None and (t[1].endswith('Try::branch') or re.search(r'Result::<.*>::(map_err|inspect|inspect_err)$', t[1])):
+                    env[('P', t[4][0])] = ap
                 if t[1].endswith('from_residual'):
                     env[vk] = 'None' if fn.locals[t[4][0]].startswith('std::option::Option<') else 'Err'
                 elif t[1].endswith('Try::branch') and av is not None:
